@@ -194,11 +194,18 @@ EXPORT errno_t _wcstombs_s_chk(size_t *restrict retvalp, char *restrict dest,
     /* l is the strlen, excluding NULL */
     /* never let libc store more than dmax bytes */
     if (dest && len > dmax) {
+        /* a result of dmax bytes or more cannot be terminated inside dest */
+        size_t need = wcstombs(NULL, src, 0);
         len = dmax;
+        l = *retvalp = wcstombs(dest, src, len);
+        if (l != (size_t)-1 && need != (size_t)-1 && need >= dmax) {
+            l = *retvalp = dmax;
+        }
+    } else {
+        l = *retvalp = wcstombs(dest, src, len);
     }
-    l = *retvalp = wcstombs(dest, src, len);
 
-    if (likely(l > 0 && (rsize_t)l < dmax)) {
+    if (likely((rsize_t)l < dmax)) {
         if (dest) {
 #ifdef SAFECLIB_STR_NULL_SLACK
             memset(&dest[l], 0, dmax - l);
